@@ -28,6 +28,8 @@ EXTENDS BTree
 CONSTANTS Tables,       \* user table names
           Vals,         \* row values (positive integers); -1 / -2 are invalid rows (wrong type / oversized)
           WalSteps,     \* TRUE: log append is three steps per record (crash points of C03)
+          WalParts,     \* how much of the write call that was under way reached the log file when the process died in a log
+                        \* append: 0 nothing, 1 its first byte, 2 half of it, 3 all but its last byte ({0}: call boundaries only)
           FlushSteps,   \* TRUE: flush is one step per page plus header (crash points of C04)
           CrashAt,      \* subset of {"idle", "wal", "flush"}: where Crash is enabled
           NoCrashIn,    \* flushes during which Crash is not explored: subset of {"idle", "create", "rec"} (to focus a configuration)
@@ -218,7 +220,7 @@ Init ==
   LET S == FreshDB
       h == Hdr(S.h.lastKey, S.h.ptRoot, S.nx, S.h.lsn)
   IN /\ disk = S.c /\ dhdr = h /\ cache = <<>> /\ mhdr = h
-     /\ walD = <<>> /\ torn = FALSE /\ walU = <<>> /\ pc = Idle
+     /\ walD = <<>> /\ torn = 0 /\ walU = <<>> /\ pc = Idle
      /\ abs = <<>> /\ pend = <<>> /\ cands = <<>> /\ taint = {} /\ scope = "all"
      /\ out = [k |-> "none", n |-> 0]
 
@@ -377,8 +379,11 @@ EndsInsideRootMove(nd, recs) ==
   /\ nd < Len(recs) /\ nd > 0
   /\ recs[nd].op = "ins" /\ recs[nd + 1].op = "upd" /\ recs[nd + 1].v.tag = "P"
 
-Crash(keep) ==
+\* torn: 0 the log ends with a complete record; 1 it ends with a complete length field and no body; 2..4 it ends inside a
+\* write call (2..4 inside the length field, 5..7 inside the body).  All of 1..7 mean the same to recovery - the tail is not a record and is cut off - which is the point.
+Crash(keep, part) ==
   /\ pc.k \in CrashAt
+  /\ part # 0 => (pc.k = "wal" /\ keep /\ walU # <<"len", "body">>)
   /\ \/ /\ pc.k = "idle" /\ keep
         /\ cands' = <<abs>> /\ UNCHANGED <<walD, torn, taint, scope>>
      \/ /\ pc.k = "wal"
@@ -386,7 +391,7 @@ Crash(keep) ==
         /\ LET comp == keep /\ walU = <<"len", "body">>
                nd == pc.i + (IF comp THEN 1 ELSE 0)
            IN /\ walD' = IF comp THEN Append(walD, pc.recs[pc.i + 1]) ELSE walD
-              /\ torn' = (keep /\ walU = <<"len">>)
+              /\ torn' = IF part # 0 THEN part + 1 + (IF walU = <<"len">> THEN 3 ELSE 0) ELSE IF keep /\ walU = <<"len">> THEN 1 ELSE 0
               /\ taint' = IF ~FixReplayRoot /\ EndsInsideRootMove(nd, pc.recs) THEN taint \cup {"rootmove-record-cut"} ELSE taint
         /\ cands' = <<abs>> \o pend
         /\ UNCHANGED scope
@@ -434,7 +439,7 @@ Replay(st, h, d, i) ==
 \* InitStorage: read header and log (a torn tail is cut off), replay, bump the LSN, flush
 Recover ==
   /\ pc.k = "down"
-  /\ torn' = FALSE
+  /\ torn' = 0
   /\ LET r == Replay([c |-> <<>>, nx |-> dhdr.nx], dhdr, disk, 1)
          h2 == IF r.st = "ok" THEN [r.h EXCEPT !.nx = r.nx, !.lsn = @ + 1] ELSE [r.h EXCEPT !.nx = r.nx]
      IN IF r.st = "fail"
